@@ -246,6 +246,22 @@ def exec_AR(t, ia=False):
     try:
         x = mk(a, sx, nx, fx, rounding=r, overflow=o, op_sizing=pol, op_method=meth, dirty_ok=True)
         y = mk(b, sy, ny, fy, rounding=r2, overflow=o2, op_sizing='optimal' if pol != 'optimal' else 'same', op_method='raw' if meth != 'raw' else 'repr', dirty_ok=True)
+        lay = hist_of(nx, ny, fx, len(a), a[-1] % 61, b[0] % 59) % 4
+        if len(a) == len(b) and len(a) >= 4 and len(a) % 2 == 0 and lay and max(nx, ny) <= 60:
+            # the same codes as 2-D operands in other memory layouts (content-determined): a transposed object, a column-major input,
+            # a reversed view — elementwise results do not depend on how the operands lie in memory
+            def as2d(codes, which, sg, n, f, **cfg):
+                arr = np.array(codes, dtype=np.int64).reshape(2, -1)
+                if which == 1:
+                    w = Fxp(np.ascontiguousarray(arr.T), sg, n, f, raw=True, **cfg).T
+                elif which == 2:
+                    w = Fxp(np.asfortranarray(arr), sg, n, f, raw=True, **cfg)
+                else:
+                    w = Fxp(np.ascontiguousarray(arr[::-1, ::-1]), sg, n, f, raw=True, **cfg)[::-1, ::-1]
+                assert codes_of(w) == list(codes) and w.shape == arr.shape, 'layout changed the logical content'
+                return w
+            x = as2d(a, lay, sx, nx, fx, rounding=r, overflow=o, op_sizing=pol, op_method=meth)
+            y = as2d(b, 1 + (lay + b[-1]) % 3, sy, ny, fy, rounding=r2, overflow=o2)
         # content-determined: the operation runs while a class-level template of another format and the opposite modes is active
         # (the documented `Fxp.template` pattern); a result is sized by the operator and configured by its first operand all the same
         tmpl = hist_of(nx, fy, len(a), a[0] % 83, b[0] % 79) % 4 == 0
